@@ -45,6 +45,8 @@ func dnsReset() {
 	resolveIp46ForRealDomainProbe = netutils.ResolveIp46
 	dnsForwarderFactory = newDnsForwarder
 	verifDnsSendPktHook = nil
+	verifDnsUpdateQueueSizeHook = nil
+	verifDnsUpdateDroppedHook = nil
 	verifBpfBatchUpdateHook = nil
 	verifBpfBatchDeleteHook = nil
 	// pooled objects of a previous run hold channels of a dead bubble
